@@ -20,29 +20,51 @@ template <class E> struct Client {
     std::function<void(const std::vector<E>&)> assign_all;   // view = ndarray of the view's shape (mutable_indexing_t::operator=), when offered
 };
 
-// one slice per axis: form 0 (None,None,step), form 1 (start,stop,step>0), form 2 integer index,
-// form 3 two-element (start,stop) with in-range bounds that may be given as negative indices, form 4 two-element (None,stop) likewise
+// one slice per axis: form 0 (None,None,step), form 1 (start,stop,step>0), form 2 integer index (possibly negative),
+// form 3 two-element (start,stop), form 4 two-element (None,stop), form 5 two-element (start,None), form 6 (start,None,step) with either sign
+// of step.  Starts are in range and may be spelled as negative indices; stops may be spelled negative or lie up to 2 beyond the extent
+// (clipped, as numpy does).  Negative steps together with an explicit stop are not drawn: the baseline suite pins a non-numpy
+// meaning for them (index/slice case32: a[...,0:-1:-1] has one element), so there is no agreed reference (DESIGN.md section 7).
 struct SliceSpec { int form; long a, b, c; };
 inline long norm_index(long v, size_t n) { return v < 0 ? v + (long)n : v; }
-inline std::vector<size_t> slice_indices(const SliceSpec& s, size_t n) {   // Python semantics, written from the definition
+// Python's slice.indices(), written from the language definition; none_a / none_b: the bound is omitted
+inline std::vector<size_t> py_slice(long n, bool none_a, long a, bool none_b, long b, long step) {
     std::vector<size_t> r;
-    if (s.form == 0) { long st = s.c; if (st > 0) for (long i = 0; i < (long)n; i += st) r.push_back((size_t)i); else for (long i = (long)n - 1; i >= 0; i += st) r.push_back((size_t)i); }
-    else if (s.form == 1) { for (long i = s.a; i < s.b; i += s.c) r.push_back((size_t)i); }
-    else if (s.form == 3) { for (long i = norm_index(s.a, n); i < norm_index(s.b, n); i++) r.push_back((size_t)i); }
-    else if (s.form == 4) { for (long i = 0; i < norm_index(s.b, n); i++) r.push_back((size_t)i); }
-    else r.push_back((size_t)s.a);
+    long lo = step < 0 ? -1 : 0, hi = step < 0 ? n - 1 : n;
+    auto res = [&](bool none, long v, long dflt) { if (none) return dflt; if (v < 0) { v += n; return v < lo ? lo : v; } return v > hi ? hi : v; };
+    long start = res(none_a, a, step < 0 ? hi : lo), stop = res(none_b, b, step < 0 ? lo : hi);
+    if (step > 0) for (long i = start; i < stop; i += step) r.push_back((size_t)i);
+    else for (long i = start; i > stop; i += step) r.push_back((size_t)i);
     return r;
+}
+inline std::vector<size_t> slice_indices(const SliceSpec& s, size_t n) {
+    switch (s.form) {
+        case 0: return py_slice((long)n, true, 0, true, 0, s.c);
+        case 1: return py_slice((long)n, false, s.a, false, s.b, s.c);
+        case 3: return py_slice((long)n, false, s.a, false, s.b, 1);
+        case 4: return py_slice((long)n, true, 0, false, s.b, 1);
+        case 5: return py_slice((long)n, false, s.a, true, 0, 1);
+        case 6: return py_slice((long)n, false, s.a, true, 0, s.c);
+        default: return {(size_t)norm_index(s.a, n)};
+    }
 }
 inline SliceSpec make_spec(long form, long p, long q, long st, size_t n) {
     SliceSpec s; s.form = (int)(form % 5); s.a = s.b = s.c = 0;
+    long hi = form / 5;   // the upper part of the argument selects the newer forms and the out-of-range stops (older plans keep their meaning)
+    if (hi % 3 == 2 && s.form == 3) s.form = 5;
+    else if (hi % 3 == 2 && s.form == 4) s.form = 6;
+    long beyond = (hi % 4 == 3) ? 1 + (hi / 4) % 2 : 0;   // stop = extent + 1 or + 2
     if (s.form == 0) { static const long steps[] = {1, 2, -1, -2, 3, -3}; s.c = steps[st % 6]; }
-    else if (s.form == 1) { s.a = p % (long)n; s.b = s.a + 1 + q % ((long)n - s.a); s.c = 1 + st % 2; }
-    else if (s.form == 3) {   // 0 <= start < stop <= n, each bound then possibly spelled as a negative index (stop == n has no negative spelling)
+    else if (s.form == 1) { s.a = p % (long)n; s.b = s.a + 1 + q % ((long)n - s.a); s.c = 1 + st % 2; if (beyond) s.b = (long)n + beyond; }
+    else if (s.form == 3) {   // 0 <= start < stop, each bound then possibly spelled as a negative index (stop == n has no negative spelling)
         long a = p % (long)n, b = a + 1 + q % ((long)n - a);
         s.a = (st & 1) && a > 0 ? a - (long)n : a; if ((st & 4) && a == 0 && n > 0) s.a = 0;
         s.b = (st & 2) && b < (long)n ? b - (long)n : b; s.c = 1;
-    } else if (s.form == 4) { long b = 1 + q % (long)n; s.b = (st & 1) && b < (long)n ? b - (long)n : b; s.c = 1; }
-    else s.a = p % (long)n;
+        if (beyond) s.b = (long)n + beyond;
+    } else if (s.form == 4) { long b = 1 + q % (long)n; s.b = (st & 1) && b < (long)n ? b - (long)n : b; s.c = 1; if (beyond) s.b = (long)n + beyond; }
+    else if (s.form == 5) { long a = p % (long)n; s.a = (st & 1) ? a - (long)n : a; s.c = 1; }
+    else if (s.form == 6) { static const long steps[] = {1, 2, -1, -2, 3}; long a = p % (long)n; s.a = (st & 1) ? a - (long)n : a; s.c = steps[(st / 2) % 5]; }
+    else { long a = p % (long)n; s.a = (st & 1) ? a - (long)n : a; }
     return s;
 }
 inline std::string spec_str(const SliceSpec& s) {
@@ -50,6 +72,8 @@ inline std::string spec_str(const SliceSpec& s) {
     if (s.form == 1) return "[" + std::to_string(s.a) + ":" + std::to_string(s.b) + ":" + std::to_string(s.c) + "]";
     if (s.form == 3) return "[" + std::to_string(s.a) + ":" + std::to_string(s.b) + "]";
     if (s.form == 4) return "[:" + std::to_string(s.b) + "]";
+    if (s.form == 5) return "[" + std::to_string(s.a) + ":]";
+    if (s.form == 6) return "[" + std::to_string(s.a) + "::" + std::to_string(s.c) + "]";
     return "[" + std::to_string(s.a) + "]";
 }
 
@@ -175,6 +199,8 @@ struct ViewTarget : Target {
         else if constexpr (F == 1) return nmtools_tuple{(int)s.a, (int)s.b, (int)s.c};
         else if constexpr (F == 3) return nmtools_tuple{(int)s.a, (int)s.b};
         else if constexpr (F == 4) return nmtools_tuple{nm::None, (int)s.b};
+        else if constexpr (F == 5) return nmtools_tuple{(int)s.a, nm::None};
+        else if constexpr (F == 6) return nmtools_tuple{(int)s.a, nm::None, (int)s.c};
         else return (int)s.a;
     }
     template <int F0, int F1> bool make_slice2(Client<E>& c, const SliceSpec* sp) {
@@ -193,7 +219,7 @@ struct ViewTarget : Target {
         SliceSpec sp[3];
         for (size_t i = 0; i < R; i++) sp[i] = make_spec(st.arg(1 + 3 * i), st.arg(2 + 3 * i), st.arg(3 + 3 * i), st.arg(2 + 3 * i) + st.arg(3 + 3 * i), shape[i]);
         if (R == 3) {   // rank 3: only a subset of the 125 form combinations is instantiated; the others fall back to (::s, ::s, ::s)
-            static const int supported[][3] = {{0,0,0},{0,0,1},{0,1,0},{1,0,0},{0,1,1},{1,1,1},{0,1,2},{1,0,2},{2,0,0},{0,2,0},{0,0,2},{2,1,0},{3,0,0},{0,3,0},{0,0,3},{3,3,3},{4,0,3},{0,4,2},{3,4,0}};
+            static const int supported[][3] = {{0,0,0},{0,0,1},{0,1,0},{1,0,0},{0,1,1},{1,1,1},{0,1,2},{1,0,2},{2,0,0},{0,2,0},{0,0,2},{2,1,0},{3,0,0},{0,3,0},{0,0,3},{3,3,3},{4,0,3},{0,4,2},{3,4,0},{5,0,0},{0,6,0},{0,0,5},{6,2,5},{1,6,6},{5,3,4}};
             bool ok = false; for (auto& x : supported) ok |= x[0] == sp[0].form && x[1] == sp[1].form && x[2] == sp[2].form;
             if (!ok) for (size_t i = 0; i < 3; i++) if (sp[i].form != 0) { sp[i].form = 0; sp[i].c = 1; }
         } else if (sp[0].form == 2 && sp[1].form == 2) sp[1] = SliceSpec{0, 0, 0, 1};
@@ -208,16 +234,16 @@ struct ViewTarget : Target {
         if constexpr (Tr::fixed_rank == 3 || Tr::fixed_rank < 0) if (R == 3) {
             int f0 = sp[0].form, f1 = sp[1].form, f2 = sp[2].form;
 #define S3(A, B, C) if (f0 == A && f1 == B && f2 == C) return make_slice3<A, B, C>(c, sp);
-            S3(0,0,0) S3(0,0,1) S3(0,1,0) S3(1,0,0) S3(0,1,1) S3(1,1,1) S3(0,1,2) S3(1,0,2) S3(2,0,0) S3(0,2,0) S3(0,0,2) S3(2,1,0) S3(3,0,0) S3(0,3,0) S3(0,0,3) S3(3,3,3) S3(4,0,3) S3(0,4,2) S3(3,4,0)
+            S3(0,0,0) S3(0,0,1) S3(0,1,0) S3(1,0,0) S3(0,1,1) S3(1,1,1) S3(0,1,2) S3(1,0,2) S3(2,0,0) S3(0,2,0) S3(0,0,2) S3(2,1,0) S3(3,0,0) S3(0,3,0) S3(0,0,3) S3(3,3,3) S3(4,0,3) S3(0,4,2) S3(3,4,0) S3(5,0,0) S3(0,6,0) S3(0,0,5) S3(6,2,5) S3(1,6,6) S3(5,3,4)
 #undef S3
         }
         return false;
     }
     template <int F0> bool dispatch2b(Client<E>& c, const SliceSpec* sp) {
-        switch (sp[1].form) { case 0: return make_slice2<F0, 0>(c, sp); case 1: return make_slice2<F0, 1>(c, sp); case 2: return make_slice2<F0, 2>(c, sp); case 3: return make_slice2<F0, 3>(c, sp); default: return make_slice2<F0, 4>(c, sp); }
+        switch (sp[1].form) { case 0: return make_slice2<F0, 0>(c, sp); case 1: return make_slice2<F0, 1>(c, sp); case 2: return make_slice2<F0, 2>(c, sp); case 3: return make_slice2<F0, 3>(c, sp); case 4: return make_slice2<F0, 4>(c, sp); case 5: return make_slice2<F0, 5>(c, sp); default: return make_slice2<F0, 6>(c, sp); }
     }
     bool dispatch2(Client<E>& c, const SliceSpec* sp) {
-        switch (sp[0].form) { case 0: return dispatch2b<0>(c, sp); case 1: return dispatch2b<1>(c, sp); case 2: return dispatch2b<2>(c, sp); case 3: return dispatch2b<3>(c, sp); default: return dispatch2b<4>(c, sp); }
+        switch (sp[0].form) { case 0: return dispatch2b<0>(c, sp); case 1: return dispatch2b<1>(c, sp); case 2: return dispatch2b<2>(c, sp); case 3: return dispatch2b<3>(c, sp); case 4: return dispatch2b<4>(c, sp); case 5: return dispatch2b<5>(c, sp); default: return dispatch2b<6>(c, sp); }
     }
 
     void add_view(const Step& st) {
